@@ -513,7 +513,9 @@ void eval_pending(World &W, const GPending &pd)
 		if (!me || me->status != RTR_MGR_ESTABLISHED)
 			return; // lost that status again meanwhile: nothing to demand any more
 		for (auto &g : W.ginfo) {
-			if (g.removed || g.pref <= pd.pref)
+			// (a group the operator is removing right now is being shut down by rtr_mgr_remove_group itself; what that
+			// leaves behind is checked when it returns)
+			if (g.removed || g.removing || g.pref <= pd.pref)
 				continue;
 			bool running = false;
 			size_t recs = 0;
@@ -1878,7 +1880,11 @@ void run_world(const J &plan, RunCtx &ctx)
 					for (auto &x : W.ginfo)
 						live += !x.removed;
 					W.oper_busy = true;
+					if (g)
+						g->removing = true;
 					int r2 = rtr_mgr_remove_group(W.conf, (unsigned)pref);
+					if (g)
+						g->removing = false;
 					W.oper_busy = false;
 					if (live <= 1 && r2 == RTR_SUCCESS)
 						ctx.viol("C15", "last-group-removed", "C15:remove:last-group-removed", "rtr_mgr_remove_group removed the last remaining group (%d)", pref);
